@@ -40,7 +40,7 @@ SPEC = {
     "id": "C35",
     "props_module": "NDB.Props.C35",
     "corr_modules": ["NDB.Corr.C35"],
-    "theorems": ["C35_ranked_no_deadlock", "C35_observed_patterns_partial", "C35_inversion_detected"],
+    "theorems": ["C35_ranked_no_deadlock", "C35_observed_patterns_partial", "C35_inversion_detected", "C35_reentrant_read_detected"],
     "allowed_axioms": [],
     "harness_pkg": "hx_conc",
     "harness_bin": "c35",
@@ -50,10 +50,11 @@ SPEC = {
     "trusted_base": [
         "Coq 8.16.1 kernel + vm_compute; coqchk re-check in the thorough tier",
         "axioms: none (Print Assumptions: Closed under the global context)",
-        "wait-for semantics of Conc/LockOrder.v: a thread blocked on a lock is blocked by a thread HOLDING it (shared holders allowed); "
-        "a queued RwLock writer that blocks later readers is itself blocked by a holder, so holder-based cycles cover std's "
-        "writer-preferring RwLock provided no thread re-acquires a lock it holds (such patterns are rejected and reported)",
-        "lock-event hooks (commit 42ca586, verif::acquire/touch before every lock()/read()/write() of the engine's mutexes and RwLocks in "
+        "wait-for semantics of Conc/LockOrder.v with modes (MR shared, MW exclusive, MTry non-blocking): a request is blocked by a "
+        "thread holding the lock in a conflicting mode (readers do not block readers) and a read request also by a thread WAITING for "
+        "the write lock (std's writer-preferring RwLock: the re-entrant-read deadlock is a theorem-level example); that std's Mutex / "
+        "RwLock / File::try_lock behave like this is trusted",
+        "lock-event hooks (commits 42ca586 and b4727fc: names carry .r/.w/.try modes; verif::acquire/touch before every lock()/read()/write() of the engine's mutexes and RwLocks in "
         "engine.rs, api.rs, read_path_engine_*.rs) and their completeness: a lock site without a hook is invisible; locks inside "
         "dependencies (std I/O, allocator) are not observed",
         "write_lock is a std Mutex (exclusive): hypothesis gate_exclusive of the theorem",
@@ -62,7 +63,14 @@ SPEC = {
     "assumptions": [
         "PARTIAL: 'all interleavings of the public operations' is reduced to 'all states whose blocked threads wait in one of the OBSERVED "
         "acquisition patterns'; an acquisition pattern that the generated workloads never exercise is not covered",
-        "read and write acquisitions of an RwLock are not distinguished (conservative: a read-read nesting would be reported as re-entrant)",
+        "what 'observed acquisition patterns' covers (listed per run in the evidence sample `patterns_by_public_operation`): per round 9 threads - "
+        "2 writer threads on one Db (Db::begin_write, WriteTxn::get_or_create_label incl. new labels, create_node, set_node_property on an "
+        "indexed label/property incl. existing nodes, remove_node_property, create_edge, set_vector, commit, abandon), 2 reader threads on the "
+        "same Db (Db::snapshot incl. a second live snapshot, begin_read, nodes, node_property, node_properties, resolve_node_labels, neighbors, "
+        "incoming_neighbors, edge_property, lookup_index, node_count/edge_count), 2 maintenance threads on the same Db (compact, checkpoint, "
+        "create_index, search_vector), 2 C API threads on a second Db (ndb_execute_write, ndb_query, ndb_begin_write/ndb_txn_query/"
+        "ndb_txn_commit), 1 handles thread (Db::open, refused second open, close, nervusdb::vacuum refused and allowed, nervusdb::bulkload). "
+        "Not exercised: backup, Cypher statements beyond CREATE/MATCH-SET/count through the C API, the Python/Node bindings",
         "progress of a thread that is not blocked on one of the named locks (I/O, fsync, CPU) is assumed",
     ],
     "manifest": {
@@ -74,7 +82,7 @@ SPEC = {
                 "thread's held set over mixed workloads on 8 threads (writers incl. new labels/indexed properties/vectors, readers incl. index "
                 "lookups/statistics/nested snapshots, compaction, checkpoint, index creation, vector search, C API incl. explicit "
                 "transactions), and Coq checks by vm_compute that the observed pattern set passes the certificate check with the computed "
-                "rank table (observed: the wal/label_interner inversion exists but only under write_lock). Search: watchdog stress, "
+                "rank table (observed: the wal/label_interner inversion exists but only under write_lock; insert_vector's index_catalog -> pager -> vector_index chain and the non-blocking database file lock are in the set; no re-entrant read). Read and write modes are distinguished: readers do not block readers, a queued writer blocks new readers; the re-entrant read under a waiting writer is proved to be a deadlock and every such pattern is rejected. Search: watchdog stress, "
                 "re-entrancy and cycle detection. Not proved: that the observed patterns are all patterns of the code.",
         "design_ref": "DESIGN.md §5 C35",
         "level_note": "Trusted: Coq kernel; hook completeness; RwLock blocking abstracted to holders; 'all interleavings' reduced to "
